@@ -19,7 +19,7 @@ BOUNDARY_KEYS = [CB.IBT, CB.FBT]
 def run(rep):
     run_property(rep, KEYS, hooks=chain_hooks(CPROP.HOOKS, CMIP.HOOKS),
                  more=[(AS_MEDIUM_KEYS, CAM.HOOKS), (MINIMAL_MEDIUM_KEYS, CMM.HOOKS), (BOUNDARY_KEYS, CB.HOOKS)],
-                 lemmas=lambda: C.lemmas() + CPROP.lemmas() + CMIP.lemmas() + CB.lemmas(),
+                 lemmas=lambda: C.lemmas() + CPROP.lemmas() + CMIP.lemmas() + CB.lemmas() + CMM.lemmas(),
                  explanation=(
         "Deductive (kernel): the three nested accessor functions of Model.medium are proved over an abstract exchange "
         "(has_reactants, has_products, lb, ub): is_active, get_active_bound (import bound by the direction of writing) and "
@@ -86,7 +86,8 @@ def run(rep):
         "every indicator, 0 on every other variable term, direction min, in the state BOTH solves see), a first solve (None when "
         "not optimal), the still empty exclusion row Constraint(Zero, ub=0) through add_cons_vars + update, a second solve; None "
         "when the second status is not optimal or its value exceeds the first optimum (the code's numerical-instability exit), else "
-        "_as_medium of the SECOND solve. NOT proved: minimize_components = n > 1 (the loop collecting alternative media with the "
+        "_as_medium of the SECOND solve; five lemmas: the call-site form of add_mip_obj used there follows, conjunct by conjunct, from "
+        "the post-condition proved for it. NOT proved: minimize_components = n > 1 (the loop collecting alternative media with the "
         "exclusion row over the union of the components seen) and the optimality of the solver's answers: bounded driver (exchanges "
         "written both ways, sub-dictionaries, sufficiency and minimality against the exact LP / subset enumeration). boundary_types.is_boundary_type is proved to BE the decision table (three "
         "boundary types; SBO(r) = upper-case `sbo` annotation, first entry of a list): SBO term of the type -> True whatever else "
